@@ -74,6 +74,20 @@ Theorem C07_dissolved_le_applied_run : forall (ops : list nop) (g : mineral_glob
   totals_inv g -> ops_ok g ops -> totals_inv (fold_left nstep ops g).
 Proof. exact run_totals_inv. Qed.
 
+(* the ammonium pair of the same clause, over a whole run: whatever sequence of fertiliser events (mineral and ammonium parts >= 0),
+   mineralisation calls and measurement days a run performs, BOTH pairs keep their order: 0 <= dissolved <= applied and
+   0 <= nitrified ammonium <= ammonium applied (so the daily nitrification and the N2O amounts it feeds are never negative) *)
+Theorem C07_nitrified_le_ammonium_run : forall (ops : list nop4) (g : mineral_glob (T:=R)),
+  totals_inv g /\ nh4_inv g -> ops4_ok g ops ->
+  totals_inv (fold_left nstep4 ops g) /\ nh4_inv (fold_left nstep4 ops g).
+Proof. exact run4_inv. Qed.
+
+(* ... and the measurement day has to treat the two members of the ammonium pair alike: resetting the applied amount alone
+   leaves the nitrified amount above it (the shape of seeded change C07-18) *)
+Theorem C07_reset_ammonium_applied_only_refuted :
+  exists g : mineral_glob (T:=R), totals_inv g /\ nh4_inv g /\ ~ nh4_inv (set_nh4sum g 0).
+Proof. exact reset_nh4sum_only_refuted. Qed.
+
 Example C07_run_nonvacuous :
   let g := {| mg_wred := 2/10; mg_porges0 := 4/10; mg_dsumm := 0; mg_ums := 0; mg_nh4sum := 0; mg_nh4ums := 0;
               mg_n2onitsum := 0; mg_n2onitdaily := 0; mg_minsum := 0 |} in
@@ -111,5 +125,7 @@ Print Assumptions C07_rates_bounded_in_run.
 Print Assumptions C07_dissolved_le_applied.
 Print Assumptions C07_dissolved_le_applied_frozen.
 Print Assumptions C07_dissolved_le_applied_run.
+Print Assumptions C07_nitrified_le_ammonium_run.
+Print Assumptions C07_reset_ammonium_applied_only_refuted.
 Print Assumptions C07_credited_once.
 Print Assumptions C07_mineral_n_nonneg.
